@@ -17,14 +17,15 @@ def coreMagic : Bytes := [0x18] ++ "Bitcoin Signed Message:\n".toUTF8.toList
 
 /-- **T-tie**: the magic prefix in the working tree is Bitcoin Core's -/
 theorem magic_tie : Gen.MAGIC_PREFIX = coreMagic := by
-  sorry
+  decide +kernel
 
 /-- the digest signed is the standard one: double-SHA256 of the magic prefix, the CompactSize of the message's
 UTF-8 **byte** length and the message (for every message, any length, any characters) -/
 theorem digest_eq_core (sha256 : Bytes → Bytes) (msgUtf8 : Bytes) :
     msgDigest sha256 Gen.MAGIC_PREFIX msgUtf8 =
       sha256 (sha256 (coreMagic ++ compactSize msgUtf8.length ++ msgUtf8)) := by
-  sorry
+  unfold msgDigest addMagicPrefix
+  rw [magic_tie]
 
 /-- verification never reports success for another message, another address or an altered signature unless that
 triple itself is ECDSA-valid: success implies a 65-byte signature with header 27..35 whose (r, s) verify, for this
